@@ -60,8 +60,11 @@
                           its innermost cell fails by itself (unknown function, or a
                           function that raises on some arguments)
      ancG G n             every strict ancestor of n is in G
-     reach_ok o n         n is reached from o through nodes that evaluate from scratch
-     listed exc n         some entry of fs_exc carries the address n *)
+     listed exc n         some entry of fs_exc carries the address n
+     cnt exc n            the number of entries of fs_exc that carry the address n
+     occ outs n / indeg W n   how often n occurs among the outputs / as a precedent
+   The loop is the one REPAIRED by bbbc9be of /repo: the except branch marks the cell
+   verified and pushes its precedents. *)
 From Coq Require Import List QArith.
 From PV Require Import Lib.Py Model.Graph Model.Validate.
 From PV Require Import Proofs.C01Base Proofs.C01 Proofs.C12Base Proofs.C12.
@@ -182,8 +185,6 @@ Theorem C12_mismatches_unaffected_f_partial :
   (forall m, m < wb_n W -> G m -> is_fcell W m = true ->
      wb_stored W m = VNone \/ fspec W fsem fpre (wb_inp0 W) m = FVal (wb_stored W m)) ->
   (forall n v, n < wb_n W -> G n -> is_fcell W n = true ->
-     fspec W fsem fpre (wb_inp0 W) n = FVal v -> py_eq v (VStr (ftext n)) = false) ->
-  (forall n v, n < wb_n W -> G n -> is_fcell W n = true ->
      fspec W fsem fpre (wb_inp0 W) n = FVal v -> is_scalar v = true) ->
   tol_pos tol ->
   (forall o, In o outs -> o < wb_n W) ->
@@ -194,15 +195,13 @@ Print Assumptions C12_mismatches_unaffected_f_partial.
 
 (* what the exception dictionaries contain: every entry is (address, message)
    with a well-formed chain, and a listed cell all of whose ancestors are in G
-   really raises from scratch; with raise_exceptions=False nothing leaves the loop *)
+   really raises from scratch *)
 Theorem C12_listed_sound_f :
   forall W fsem fpre rorder ftext tol outs (G : nat -> Prop),
   wf W ->
   (forall n d, n < wb_n W -> G n -> In d (wb_deps W n) -> G d) ->
   (forall m, m < wb_n W -> G m -> is_fcell W m = true ->
      wb_stored W m = VNone \/ fspec W fsem fpre (wb_inp0 W) m = FVal (wb_stored W m)) ->
-  (forall n v, n < wb_n W -> G n -> is_fcell W n = true ->
-     fspec W fsem fpre (wb_inp0 W) n = FVal v -> py_eq v (VStr (ftext n)) = false) ->
   (forall n v, n < wb_n W -> G n -> is_fcell W n = true ->
      fspec W fsem fpre (wb_inp0 W) n = FVal v -> is_scalar v = true) ->
   tol_pos tol ->
@@ -213,78 +212,77 @@ Theorem C12_listed_sound_f :
 Proof. exact listed_sound. Qed.
 Print Assumptions C12_listed_sound_f.
 
-(* PARTIAL (reachable THROUGH CELLS THAT EVALUATE — the except branch does not walk
-   the precedents of a cell that raises, coq/Refuted/C12_failed_cell_precedents.v —;
-   for a run that ends with an empty stack: the fuel bound of Model/Validate.v is
-   not proved sufficient when cells raise): every node of G reached from a checked
-   output through nodes that evaluate from scratch is verified or listed under
-   exceptions / not-implemented *)
-Theorem C12_nothing_silently_skipped_f_partial :
-  forall W fsem fpre rorder ftext tol outs (G : nat -> Prop),
+(* for ANY stored results and ANY cells that raise — only the 'No Orig data?'
+   skip is excluded: no stored result and no value a formula computes is the text
+   of the cell's own formula (without it: coq/Refuted/C12_formula_text.v) — the
+   loop ends with an empty stack within the fuel |outs| + |edges| + 1 … *)
+Theorem C12_terminates_f : forall W fsem fpre rorder ftext tol outs,
   wf W ->
-  (forall n d, n < wb_n W -> G n -> In d (wb_deps W n) -> G d) ->
-  (forall m, m < wb_n W -> G m -> is_fcell W m = true ->
-     wb_stored W m = VNone \/ fspec W fsem fpre (wb_inp0 W) m = FVal (wb_stored W m)) ->
-  (forall n v, n < wb_n W -> G n -> is_fcell W n = true ->
-     fspec W fsem fpre (wb_inp0 W) n = FVal v -> py_eq v (VStr (ftext n)) = false) ->
-  (forall n v, n < wb_n W -> G n -> is_fcell W n = true ->
-     fspec W fsem fpre (wb_inp0 W) n = FVal v -> is_scalar v = true) ->
-  tol_pos tol ->
+  (forall n, n < wb_n W -> is_fcell W n = true -> py_eq (wb_stored W n) (VStr (ftext n)) = false) ->
+  (forall n vals v, n < wb_n W -> is_fcell W n = true -> fsem n vals = Some v ->
+     py_eq v (VStr (ftext n)) = false) ->
   (forall o, In o outs -> o < wb_n W) ->
-  forall o n,
-    fs_todo (validate_f W fsem fpre rorder ftext tol false outs) = [] ->
-    In o outs -> G o -> reach_ok W fsem fpre o n ->
-    mem n (fs_verified (validate_f W fsem fpre rorder ftext tol false outs)) = true \/
-    listed (fs_exc (validate_f W fsem fpre rorder ftext tol false outs)) n.
-Proof. exact nothing_skipped. Qed.
-Print Assumptions C12_nothing_silently_skipped_f_partial.
+  fs_todo (validate_f W fsem fpre rorder ftext tol false outs) = [].
+Proof. exact terminates_f. Qed.
+Print Assumptions C12_terminates_f.
 
-(* PARTIAL (same two restrictions): a formula cell so reached whose recomputation
-   raises is listed with its address and the chain of its message (the bucket and
-   the key are not_implemented / key_of of that chain: 'not-implemented' exactly
-   when the innermost cell calls an unknown function or, for a one-cell chain,
-   raises NotImplementedError) … *)
-Theorem C12_failing_reported_partial :
-  forall W fsem fpre rorder ftext tol outs (G : nat -> Prop),
+(* … every node the checked outputs depend on — through cells that raise too — has
+   been processed (is in [verified]) … *)
+Theorem C12_reachable_processed_f : forall W fsem fpre rorder ftext tol outs,
   wf W ->
-  (forall n d, n < wb_n W -> G n -> In d (wb_deps W n) -> G d) ->
-  (forall m, m < wb_n W -> G m -> is_fcell W m = true ->
-     wb_stored W m = VNone \/ fspec W fsem fpre (wb_inp0 W) m = FVal (wb_stored W m)) ->
-  (forall n v, n < wb_n W -> G n -> is_fcell W n = true ->
-     fspec W fsem fpre (wb_inp0 W) n = FVal v -> py_eq v (VStr (ftext n)) = false) ->
-  (forall n v, n < wb_n W -> G n -> is_fcell W n = true ->
-     fspec W fsem fpre (wb_inp0 W) n = FVal v -> is_scalar v = true) ->
-  tol_pos tol ->
+  (forall n, n < wb_n W -> is_fcell W n = true -> py_eq (wb_stored W n) (VStr (ftext n)) = false) ->
+  (forall n vals v, n < wb_n W -> is_fcell W n = true -> fsem n vals = Some v ->
+     py_eq v (VStr (ftext n)) = false) ->
   (forall o, In o outs -> o < wb_n W) ->
-  forall o n,
-    fs_todo (validate_f W fsem fpre rorder ftext tol false outs) = [] ->
-    In o outs -> G o -> reach_ok W fsem fpre o n ->
-    is_fcell W n = true -> is_raise (fspec W fsem fpre (wb_inp0 W) n) = true ->
-    exists ch, In (n, ch) (fs_exc (validate_f W fsem fpre rorder ftext tol false outs)) /\
-               chain_ok W fsem fpre n ch.
-Proof. exact failing_reported. Qed.
-Print Assumptions C12_failing_reported_partial.
-
-(* … and a node so reached that evaluates from scratch is verified *)
-Theorem C12_evaluating_verified_f_partial :
-  forall W fsem fpre rorder ftext tol outs (G : nat -> Prop),
-  wf W ->
-  (forall n d, n < wb_n W -> G n -> In d (wb_deps W n) -> G d) ->
-  (forall m, m < wb_n W -> G m -> is_fcell W m = true ->
-     wb_stored W m = VNone \/ fspec W fsem fpre (wb_inp0 W) m = FVal (wb_stored W m)) ->
-  (forall n v, n < wb_n W -> G n -> is_fcell W n = true ->
-     fspec W fsem fpre (wb_inp0 W) n = FVal v -> py_eq v (VStr (ftext n)) = false) ->
-  (forall n v, n < wb_n W -> G n -> is_fcell W n = true ->
-     fspec W fsem fpre (wb_inp0 W) n = FVal v -> is_scalar v = true) ->
-  tol_pos tol ->
-  (forall o, In o outs -> o < wb_n W) ->
-  forall o n,
-    fs_todo (validate_f W fsem fpre rorder ftext tol false outs) = [] ->
-    In o outs -> G o -> reach_ok W fsem fpre o n ->
-    is_raise (fspec W fsem fpre (wb_inp0 W) n) = false ->
+  forall o n, In o outs -> n = o \/ anc W n o ->
     mem n (fs_verified (validate_f W fsem fpre rorder ftext tol false outs)) = true.
-Proof. exact evaluating_verified. Qed.
-Print Assumptions C12_evaluating_verified_f_partial.
+Proof. exact reachable_verified_f. Qed.
+Print Assumptions C12_reachable_processed_f.
+
+(* … and a cell is listed at most once per occurrence among the outputs plus once
+   per edge into it.  (NOT "at most once": a cell that sits on the stack twice is
+   popped and listed twice, Proofs/C12FailExample.v fx_computed.) *)
+Theorem C12_listed_bound_f : forall W fsem fpre rorder ftext tol outs,
+  wf W ->
+  (forall n, n < wb_n W -> is_fcell W n = true -> py_eq (wb_stored W n) (VStr (ftext n)) = false) ->
+  (forall n vals v, n < wb_n W -> is_fcell W n = true -> fsem n vals = Some v ->
+     py_eq v (VStr (ftext n)) = false) ->
+  (forall o, In o outs -> o < wb_n W) ->
+  forall k, cnt (fs_exc (validate_f W fsem fpre rorder ftext tol false outs)) k
+            <= occ outs k + indeg W k.
+Proof. exact listed_bound. Qed.
+Print Assumptions C12_listed_bound_f.
+
+(* nothing reachable is skipped silently: every node reachable from a checked
+   output is processed within the fuel, and a formula cell of G among them is
+   listed under exceptions / not-implemented — with its address and the chain of
+   its message — exactly when it raises from scratch (the bucket and the key are
+   not_implemented / key_of of that chain: 'not-implemented' exactly when the
+   innermost cell calls an unknown function or, for a one-cell chain, raises
+   NotImplementedError) *)
+Theorem C12_nothing_silently_skipped_f :
+  forall W fsem fpre rorder ftext tol outs (G : nat -> Prop),
+  wf W ->
+  (forall n d, n < wb_n W -> G n -> In d (wb_deps W n) -> G d) ->
+  (forall m, m < wb_n W -> G m -> is_fcell W m = true ->
+     wb_stored W m = VNone \/ fspec W fsem fpre (wb_inp0 W) m = FVal (wb_stored W m)) ->
+  (forall n v, n < wb_n W -> G n -> is_fcell W n = true ->
+     fspec W fsem fpre (wb_inp0 W) n = FVal v -> is_scalar v = true) ->
+  tol_pos tol ->
+  (forall n, n < wb_n W -> is_fcell W n = true -> py_eq (wb_stored W n) (VStr (ftext n)) = false) ->
+  (forall n vals v, n < wb_n W -> is_fcell W n = true -> fsem n vals = Some v ->
+     py_eq v (VStr (ftext n)) = false) ->
+  (forall o, In o outs -> o < wb_n W) ->
+  forall o n, In o outs -> n = o \/ anc W n o ->
+    let final := validate_f W fsem fpre rorder ftext tol false outs in
+    fs_todo final = [] /\
+    mem n (fs_verified final) = true /\
+    (G n -> is_fcell W n = true ->
+       (is_raise (fspec W fsem fpre (wb_inp0 W) n) = true ->
+          exists ch, In (n, ch) (fs_exc final) /\ chain_ok W fsem fpre n ch) /\
+       (is_raise (fspec W fsem fpre (wb_inp0 W) n) = false -> ~ listed (fs_exc final) n)).
+Proof. exact nothing_skipped. Qed.
+Print Assumptions C12_nothing_silently_skipped_f.
 
 (* the two exception dictionaries are exactly the appended entries, each under
    the bucket and the key text its message demands *)
